@@ -8,9 +8,12 @@
                     is not prescribed); the canonical texts must use no shorthand; the wire must be the
                     shortest-form TLV of n and decode to n.
    k = "esc":    raw (UTF-8 bytes of an arbitrary component string s), esc (Component.escape_str(s)),
-                 lib ([k |-> "ok", c |-> Name.normalize([s])[0]] or [k |-> "err", c |-> ...])
+                 lib ([k |-> "ok", c |-> Name.normalize([s])[0]] or [k |-> "err", c |-> ...]),
+                 comp (the same for Component.from_str(s): the string handed to the component-level parser DIRECTLY,
+                 unescaped; s may hold any Unicode character in any position)
                  -> escaping does not change the denoted component, leaves nothing to escape, and the
-                    library's own reading of s is the reference's.
+                    library's own reading of s is the reference's; what Component.from_str accepts is the
+                    component the text denotes at the Name level (NameUri!FromStrClauses).
    k = "uri":    raw (UTF-8 bytes of an arbitrary Name URI string with raw non-ASCII characters), lib, norm
                  (Name.from_str / Name.normalize of it) -> must be the name the reference reads
    k = "pairs":  names, and the matrices the library/Python computed on all pairs:
@@ -46,6 +49,7 @@ EscClauses(r) ==
      \cup (IF EscapeText(r.esc) # r.esc THEN {"esc_incomplete"} ELSE {})
      \cup (IF r.lib.k = "ok" /\ byraw # CErr /\ CompOf(r.lib.c) # byraw THEN {"from_str"} ELSE {})
      \cup (IF r.lib.k = "err" /\ byraw # CErr THEN {"from_str_refused"} ELSE {})
+     \cup FromStrClauses(r.raw, [k |-> r.comp.k, c |-> CompOf(r.comp.c)], [k |-> r.lib.k, c |-> CompOf(r.lib.c)])
 
 \* k = "uri": raw = UTF-8 bytes of an arbitrary Name URI string s (raw non-ASCII characters, reserved characters,
 \* any slash pattern); lib / norm = what Name.from_str(s) / Name.normalize(s) returned ([k |-> "ok", n] or "err").
